@@ -79,6 +79,26 @@ class Timeout(Exception):
     pass
 
 
+def later_grid_cases():
+    """a well-formed first grid followed, after a blank line, by broken text: broken documents, whatever the call mode of hszinc.parse"""
+    import hszinc
+    from hszinc.zincparser import ZincParseException
+    good = 'ver:"3.0"\nid,dis\n@a,"first"\n'
+    tails = ['ver:"3.0"\nb\n"unterminated\n', '@a,"first"\n', 'ver:"3.0"\nb\n[1,2\n', 'ver:"2.0"\nb\n[1,2]\n', 'b\n1\n', 'ver:"3.0"\n1bad\n1\n', 'ver:"3.0"\nb\n"\\q"\n']
+    bad = []
+    for t in tails:
+        doc = good + '\n' + t
+        for kw in ({}, {'single': True}, {'single': False}):
+            try:
+                r = hszinc.parse(doc, mode=hszinc.MODE_ZINC, **kw)
+                bad.append((doc, 'parse(%s) accepted a document whose second grid is broken and returned %s' % (kw or 'default', type(r).__name__)))
+            except ZincParseException:
+                pass
+            except Exception as e:
+                bad.append((doc, 'parse(%s) raised %s instead of ZincParseException' % (kw or 'default', type(e).__name__)))
+    return bad, len(tails) * 3
+
+
 LONG = 'the quick brown fox jumps over the lazy dog 0123456789'      # a long run of plain characters
 
 
@@ -142,6 +162,10 @@ def bounded(tier, seed):
         except Exception:
             pass
     per = 6 if tier != 'thorough' else 60
+    lb, ln = later_grid_cases()
+    cases += ln
+    for doc, what in lb[:4]:
+        fails.append({'id': 'C09/later-grid', 'what': what + ': %r' % doc[:90], 'input': {'kind': 'later_grid'}})
     from concurrent.futures import ThreadPoolExecutor
     ldocs = long_literal_cases()
     with ThreadPoolExecutor(10) as ex:
@@ -208,6 +232,9 @@ def bounded(tier, seed):
 
 def replay(inp):
     k = inp.get('kind')
+    if k == 'later_grid':
+        lb, _ = later_grid_cases()
+        return {'reproduced': bool(lb), 'detail': [w for _, w in lb[:3]]}
     if k == 'long':
         r = run_long(inp['text'])
         return {'reproduced': bool(r), 'detail': r or ''}
